@@ -438,7 +438,7 @@ def arg (s : Sess) (h : String) : Option Int := lookup h s.vals
 def args (s : Sess) (hs : List String) : Option (List Int) := hs.mapM s.arg
 
 /-- Ops whose block count involves growth of a `std::vector` / `std::deque` (opaque owners): no prediction. -/
-def opaqueOps : List String := ["var", "field", "typedecl", "fundecl", "enum", "enumerator", "print"]
+def opaqueOps : List String := ["var", "field", "typedecl", "fundecl", "ptmpl", "stmpl", "enum", "enumerator", "print"]
 
 /-- One factory call: `(session, resulting node)`; `none` = malformed / undefined operand. -/
 def call (s : Sess) (op : String) (a : List String) : Option (Sess × Int) :=
@@ -518,6 +518,9 @@ def call (s : Sess) (op : String) (a : List String) : Option (Sess × Int) :=
   | "field", [r, n, t] => do let r ← s.arg r; let n ← s.arg n; let t ← s.arg t; pure (s.declare r "fields" n t)
   | "typedecl", [r, n, t] => do let r ← s.arg r; let n ← s.arg n; let t ← s.arg t; pure (s.declare r "typedecls" n t)
   | "fundecl", [r, n, t] => do let r ← s.arg r; let n ← s.arg n; let t ← s.arg t; pure (s.declare r "fundecls" n t)
+  -- primary / secondary templates: declarations like the others (one more pair of farms of the scope)
+  | "ptmpl", [r, n, t] => do let r ← s.arg r; let n ← s.arg n; let t ← s.arg t; pure (s.declare r "primary_maps" n t)
+  | "stmpl", [r, n, t] => do let r ← s.arg r; let n ← s.arg n; let t ← s.arg t; pure (s.declare r "secondary_maps" n t)
   | _, _ => none
 
 def commaList (l : List Nat) : String := if l.isEmpty then "-" else ",".intercalate (l.map toString)
